@@ -68,6 +68,7 @@ def ids(ctx):
                     return True
         return False
 
+    handed_back = []
     wraps_in_read = bool(list(facts.fn(CC + "read").calls_to("server::ServerRequest::new"))) or any(list(c.calls_to("server::ServerRequest::new")) for c in facts.closures_of(CC + "read"))
     if wraps_in_read:
         # read() wraps the requests itself and fills the caller's vector: look at requests() with read() traversed inline
@@ -103,7 +104,19 @@ def ids(ctx):
                 src_ok = bool(pops)
             ctx.ob("R07.1", "wrap|id-is-event-data", id_ok, "ServerRequest::new(request, e.data()) with e the event being handled", fn.loc(w[1]))
             ctx.ob("R07.1", "wrap|over-requests-just-read", src_ok, "each wrapped request is an item of the vector read() just returned for that event", fn.loc(w[1]))
-            ctx.ob("R07.1", "wrap|yielded", reaches_yield(lf, w[4]), "the wrapped request is added to the vector requests() returns", fn.loc(w[1]))
+            ry_ok = reaches_yield(lf, w[4])
+            if not ry_ok and wraps_in_read:
+                # pushed onto a vector local to read(), which read() hands back (inside a struct) and the caller appends:
+                # the loop path ends at the back edge, so the second half is checked on the paths that leave the loop
+                for e2 in lf.events:
+                    if e2[0] == "call" and last_seg(e2[3]) == "push" and any(isinstance(s_, tuple) and norm(s_) == norm(w[4]) for s_ in subterms(e2[4][2][1])):
+                        v_ = look(e2[4][2][0])
+                        while v_[0] == "mut":
+                            v_ = look(v_[1])
+                        handed_back.append((norm(v_), fn.loc(w[1])))
+                        ry_ok = None
+            if ry_ok is not None:
+                ctx.ob("R07.1", "wrap|yielded", ry_ok, "the wrapped request is added to the vector requests() returns", fn.loc(w[1]))
         # the closure mapping requests to ServerRequest captures this very event
         maps = [e for e in lf.events if e[0] == "call" and last_seg(e[3]) == "map" and "Iterator" in e[3]]
         for m in maps:
@@ -139,6 +152,14 @@ def ids(ctx):
                         a = look(look(r[2][1])[2][0])
                         ok = a[0] == "field" and look(a[1]) == ("arg", 1)
                 ctx.ob("R07.1", "wrap|id-is-event-data", ok, "ServerRequest::new(request, e.data()) with e the captured event", fc.loc(0))
+    for vkey, loc_ in sorted(set(handed_back), key=str):
+        flows = False
+        for lf in lv:
+            for e in lf.events:
+                if e[0] == "call" and ((getattr(e[1], "fn", None) or fn).name, int(e[1])) in acc_blocks:
+                    if any(isinstance(s_, tuple) and norm(s_) == vkey for a in e[4][2][1:] for s_ in subterms(a)):
+                        flows = True
+        ctx.ob("R07.1", "wrap|yielded", flows, "the wrapped request is pushed onto read()'s own vector, which read() hands back and requests() adds to the vector it returns", loc_)
     ctx.ob("R07.1", "floor", n >= 1, "%d wrapping site(s) inspected (floor 1)" % n)
     # ServerRequest is constructed nowhere else in the crate
     sites = set()
